@@ -136,10 +136,10 @@ var emptyGet = func() map[string]Ret {
 }()
 
 // observeDecodeCBOR feeds token bytes to the dispatching decoders and records the outcome.
-func observeDecodeCBOR(b int, src string, buf []byte, reg []regEntry) (decodeEv, bool) {
+func observeDecodeCBOR(b int, src string, buf []byte, reg []regEntry) (decodeEv, psatoken.IClaims, bool) {
 	node, err := cborx.Parse(buf)
 	if err != nil {
-		return decodeEv{}, false
+		return decodeEv{}, nil, false
 	}
 	ev := decodeEv{B: b, Op: "DecodeCBOR", Src: src, Tok: absItem(node), Reg: reg}
 	c, derr, pan := guardDec(func() (psatoken.IClaims, error) { return psatoken.DecodeClaimsFromCBOR(append([]byte{}, buf...)) })
@@ -160,7 +160,7 @@ func observeDecodeCBOR(b int, src string, buf []byte, reg []regEntry) (decodeEv,
 	if len(buf) <= 400 {
 		ev.Hex = hexs(buf)
 	}
-	return ev, true
+	return ev, c, true
 }
 
 func init() {
@@ -175,9 +175,10 @@ func init() {
 		b := 0
 		skipped := 0
 		bysrc := map[string]int{}
+		rt, rtOnly := a.hasRest("rt") || a.hasRest("rtonly"), a.hasRest("rtonly")
 		emit := func(src string, entries []tokEntry, indef bool) {
 			buf := cc.encToken(entries, indef)
-			ev, ok := observeDecodeCBOR(b, src, buf, reg)
+			ev, decoded, ok := observeDecodeCBOR(b, src, buf, reg)
 			if !ok {
 				skipped++
 				return
@@ -191,7 +192,15 @@ func init() {
 			sort.Strings(ev.Dev)
 			b++
 			bysrc[src]++
-			t.Emit(ev, true, !ev.Val.OK || len(entries) > 12)
+			if !rtOnly {
+				t.Emit(ev, true, !ev.Val.OK || len(entries) > 12)
+			}
+			if rt && ev.Dec.OK {
+				// C09: whatever decoded is encoded again, decoded again, encoded again
+				rev := observeEncodeCBOR(b, "decoded:"+src, "dispatch", decoded)
+				b++
+				t.Emit(rev, true, !rev.VRet.OK)
+			}
 		}
 		shuffle := func(e []tokEntry) []tokEntry {
 			o := append([]tokEntry{}, e...)
@@ -220,12 +229,26 @@ func init() {
 			extras = append(extras, tokEntry{descFromAny(kv["k"]), descFromAny(kv["it"]), "extra:" + descLabel(descFromAny(kv["k"]))})
 		}
 		thorough := a.Tier == "thorough"
-		for _, p := range []string{"P1", "P2"} {
+		profiles := []string{"P1", "P2"}
+		if strings.Contains(a.Reg, "X2") {
+			profiles = append(profiles, "X2")
+		}
+		for _, pp := range profiles {
+			p := pp
+			if pp == "X2" {
+				p = "P2" // X2 = profile-2 rules under another name, plus one optional integer claim
+			}
 			keys := cborKeys[p]
 			bases := map[string][]tokEntry{}
 			for _, kind := range []string{"full", "minimal", "nosw"} {
 				bases[kind] = baseEntries(d.base(p, kind))
-				emit("base:"+kind, bases[kind], false)
+				if pp == "X2" {
+					bases[kind] = replace(bases[kind], 265, Desc{D: "tstrName", S: []any{X2Name}})
+					if kind == "full" {
+						bases[kind] = append(bases[kind], tokEntry{intDesc(-75100), intDesc(1721138454), ""})
+					}
+				}
+				emit("base:"+kind+":"+pp, bases[kind], false)
 				emit("base-indef:"+kind, bases[kind], true)
 				for k := 0; k < 4; k++ {
 					emit("order:"+kind, shuffle(bases[kind]), false)
@@ -256,8 +279,17 @@ func init() {
 					}
 				}
 			}
+			if pp == "X2" {
+				for _, kind := range []string{"full", "minimal"} {
+					emit("single:"+kind, replace(bases[kind], -75100, intDesc(0)), false)
+					emit("single:"+kind, replace(bases[kind], -75100, Desc{D: "none"}), false)
+				}
+			}
 			// the dispatch selector (key 265)
 			for _, kind := range []string{"full", "minimal"} {
+				if pp == "X2" {
+					break
+				}
 				for _, x := range w.Selector {
 					emit("selector:"+kind, replace(bases[kind], 265, descFromAny(x)), false)
 				}
